@@ -131,9 +131,26 @@ def steer(g, x0, incr):
     return x
 
 
+def earlier_user_call(ctx, lib, c):
+    """On half of the cases that hash or sample into G1 / G2, the caller has just used the library for something else: a G1
+    multiplication by a 128-bit scalar of its own (the width the cofactor has) and a G2 multiplication by a 512-bit one, each checked
+    against the reference. Sampling and hashing must not depend on who used a shared helper first, or last."""
+    if not c["seed"] & 4:
+        return
+    k = (c["seed"] * 0x9E3779B97F4A7C15 + 12345) & ((1 << 128) - 1) | 1
+    lib.A.write_operand(c05.aff_b(lib, 1, C.gen_mul(1, 1), (1, 2)))
+    lib.B.write_operand(conv.bi(k, 128))
+    lib.fn("vf_g1_mul_128", None)(lib.O.ptr, lib.A.ptr, 1, lib.B.ptr)
+    got = c05.b_proj(1, lib.O.read(lib.sizeof("G1")))
+    expect(got == C.gen_mul(1, k % R), "earlier-user-call/g1_multiply_128", lambda: "[k]G for the 128-bit k=%x is wrong" % k)
+    ctx.event("earlier-user-call")
+
+
 def check(ctx, env, c):
     lib, lib2 = env
     op = c["op"]
+    if op in ("g1_random", "wk_g1", "lq_id", "g1_from_hash"):
+        earlier_user_call(ctx, lib, c)
     if op in ("zp_from_hash", "scalar_hash_reduce"):
         v = c["v"]
         masked = v & ((1 << 255) - 1)
